@@ -466,6 +466,8 @@ struct Slot {
     current: Option<(usize, Vec<u64>, Option<u64>)>,
     last_seq: u64,
     last_change: Instant,
+    /// CPU seconds the worker (and its reaped children) had used at `last_change`
+    cpu_at_change: f64,
     killed_for_hang: bool,
     generation: u64,
 }
@@ -534,6 +536,7 @@ impl<'a> Pool<'a> {
             current: None,
             last_seq: 0,
             last_change: Instant::now(),
+            cpu_at_change: 0.0,
             killed_for_hang: false,
             generation,
         });
@@ -549,6 +552,7 @@ impl<'a> Pool<'a> {
         });
         slot.current = Some((unit, skip, only));
         slot.last_change = Instant::now();
+        slot.cpu_at_change = proc_cpu_s(slot.child.id()).unwrap_or(0.0);
         slot.last_seq = slot.marks.read().0;
         if let Some(si) = slot.stdin.as_mut() {
             writeln!(si, "{}", req).and_then(|_| si.flush()).is_ok()
@@ -737,13 +741,21 @@ fn run_pool(
             if slot.current.is_none() || slot.killed_for_hang {
                 continue;
             }
+            // A case hangs when the worker has burnt `timeout` seconds of CPU on it
+            // (independent of how loaded the machine is), or when it has made no
+            // progress for 8 x `timeout` of wall clock (blocked or sleeping).
             let seq = slot.marks.read().0;
             if seq != slot.last_seq {
                 slot.last_seq = seq;
                 slot.last_change = now;
+                slot.cpu_at_change = proc_cpu_s(slot.child.id()).unwrap_or(0.0);
             } else if now.duration_since(slot.last_change) > timeout {
-                slot.killed_for_hang = true;
-                let _ = slot.child.kill();
+                let wall = now.duration_since(slot.last_change);
+                let cpu = proc_cpu_s(slot.child.id()).map(|c| c - slot.cpu_at_change);
+                if cpu.is_none_or(|c| c > timeout.as_secs_f64()) || wall > timeout * 8 {
+                    slot.killed_for_hang = true;
+                    let _ = slot.child.kill();
+                }
             }
         }
     }
@@ -756,6 +768,17 @@ fn run_pool(
         ));
     }
     agg
+}
+
+/// user + system CPU seconds of a process and of the children it has waited for
+fn proc_cpu_s(pid: u32) -> Option<f64> {
+    let stat = std::fs::read_to_string(format!("/proc/{pid}/stat")).ok()?;
+    // fields after the parenthesised command name: state is field 3, utime 14 .. cstime 17
+    let rest = &stat[stat.rfind(')')? + 1..];
+    let f: Vec<&str> = rest.split_whitespace().collect();
+    let ticks: u64 = (11..15).map(|i| f.get(i).and_then(|x| x.parse::<u64>().ok())).sum::<Option<u64>>()?;
+    let hz = unsafe { libc::sysconf(libc::_SC_CLK_TCK) }.max(1) as f64;
+    Some(ticks as f64 / hz)
 }
 
 fn load_findings(property: &str) -> Vec<Finding> {
